@@ -19,7 +19,7 @@
 (*   BestDecl / EgfDecl : literally "max over all alignments" (tiny input) *)
 (*   LCSPair  / EGFPair : dynamic programming written as row folds         *)
 (***************************************************************************)
-EXTENDS Integers, Sequences, FiniteSets
+EXTENDS Integers, Sequences, FiniteSets, SequencesExt
 
 Bases == {"a", "c", "g", "t"}
 Sym   == {"a", "c", "g", "t", "u", "r", "y", "s", "w", "k", "m", "b", "d", "h", "v", "n"}
@@ -73,42 +73,40 @@ EgfDecl(L, S) ==
                  IF k = 0 THEN Len(S) ELSE Len(S) + (I[k] - I[1] + 1) - k>> : M \in Matchings(Len(L), Len(S)) })
 
 ---------------------------------------------------------------------------
-(* dynamic programming as row folds (recursive operators; TLC does not memoise recursive  *)
-(* functions).  Row i is a tuple indexed 1..Len(b)+1, element j+1 = cell (i, j).           *)
+(* dynamic programming as row folds.  FoldLeft(op, base, seq) = op(...op(op(base, seq[1]), seq[2])..., *)
+(* seq[n]) (CommunityModules SequencesExt, evaluated natively by TLC: recursive operators cost ten  *)
+(* times more and TLC does not memoise recursive functions).  A row is a tuple indexed             *)
+(* 1..Len(b)+1, element j+1 = cell (i, j) = <<best score, fewest columns>> for a[1..i], b[1..j].   *)
 
-RECURSIVE FillRow(_, _, _, _)
-FillRow(m, b, prev, acc) ==      \* m = symbols matching a[i], prev = row i-1, acc = row i so far
-  LET j == Len(acc) IN
-  IF j > Len(b) THEN acc
-  ELSE LET diag == <<prev[j][1] + (IF b[j] \in m THEN 1 ELSE 0), prev[j][2] + 1>>
-           up   == <<prev[j + 1][1], prev[j + 1][2] + 1>>
-           left == <<acc[j][1], acc[j][2] + 1>>
-       IN FillRow(m, b, prev, Append(acc, Better(diag, Better(up, left))))
+Upto(n) == [k \in 1..n |-> k]
 
-RECURSIVE Rows(_, _, _, _)
-Rows(a, b, i, prev) ==
-  IF i > Len(a) THEN prev ELSE Rows(a, b, i + 1, FillRow(MatchTab[a[i]], b, prev, << <<0, i>> >>))
+(* row i from row i-1 (prev); m = the symbols matching a[i] *)
+NextRow(m, b, prev, i) ==
+  FoldLeft(LAMBDA acc, j :
+             LET diag == <<prev[j][1] + (IF b[j] \in m THEN 1 ELSE 0), prev[j][2] + 1>>
+                 up   == <<prev[j + 1][1], prev[j + 1][2] + 1>>
+                 left == <<acc[j][1], acc[j][2] + 1>>
+             IN Append(acc, Better(diag, Better(up, left))),
+           << <<0, i>> >>, Upto(Len(b)))
 
 (* <<LCS length, number of columns of the shortest alignment with that many matches>> *)
-LCSPair(a, b) == Rows(a, b, 1, [j \in 1..(Len(b) + 1) |-> <<0, j - 1>>])[Len(b) + 1]
+LCSPair(a, b) ==
+  FoldLeft(LAMBDA prev, i : NextRow(MatchTab[a[i]], b, prev, i),
+           [j \in 1..(Len(b) + 1) |-> <<0, j - 1>>], Upto(Len(a)))[Len(b) + 1]
 
-(* end-gap-free: rows run over S (short), columns over L (long); row 0 costs nothing, moving *)
-(* along the last row costs nothing                                                         *)
-RECURSIVE EgfFillRow(_, _, _, _, _)
-EgfFillRow(m, L, inner, prev, acc) ==   \* m = symbols matching S[i]; inner: i < Len(S)
-  LET j == Len(acc) IN
-  IF j > Len(L) THEN acc
-  ELSE LET diag == <<prev[j][1] + (IF L[j] \in m THEN 1 ELSE 0), prev[j][2] + 1>>
-           up   == <<prev[j + 1][1], prev[j + 1][2] + 1>>
-           left == <<acc[j][1], acc[j][2] + (IF inner THEN 1 ELSE 0)>>
-       IN EgfFillRow(m, L, inner, prev, Append(acc, Better(diag, Better(up, left))))
+(* end-gap-free: rows run over S (short), columns over L (long); the first row costs nothing   *)
+(* (leading overhang of L), moving along the last row costs nothing (trailing overhang of L)   *)
+EgfNextRow(m, L, prev, i, inner) ==          \* inner: i < Len(S)
+  FoldLeft(LAMBDA acc, j :
+             LET diag == <<prev[j][1] + (IF L[j] \in m THEN 1 ELSE 0), prev[j][2] + 1>>
+                 up   == <<prev[j + 1][1], prev[j + 1][2] + 1>>
+                 left == <<acc[j][1], acc[j][2] + (IF inner THEN 1 ELSE 0)>>
+             IN Append(acc, Better(diag, Better(up, left))),
+           << <<0, i>> >>, Upto(Len(L)))
 
-RECURSIVE EgfRows(_, _, _, _)
-EgfRows(S, L, i, prev) ==
-  IF i > Len(S) THEN prev
-  ELSE EgfRows(S, L, i + 1, EgfFillRow(MatchTab[S[i]], L, i < Len(S), prev, << <<0, i>> >>))
-
-EGFPair(L, S) == EgfRows(S, L, 1, [j \in 1..(Len(L) + 1) |-> <<0, 0>>])[Len(L) + 1]
+EGFPair(L, S) ==
+  FoldLeft(LAMBDA prev, i : EgfNextRow(MatchTab[S[i]], L, prev, i, i < Len(S)),
+           [j \in 1..(Len(L) + 1) |-> <<0, 0>>], Upto(Len(S)))[Len(L) + 1]
 
 (* The real kernel lets its FIRST argument play the longer part when the lengths are equal. *)
 (* Which one does is not part of the property: both orientations are acceptable then.       *)
